@@ -811,9 +811,11 @@ pub mod system_time_conversion {
                 i64::try_from(micros).ok()
             }
             Err(e) => {
-                // Safely convert to i64 microseconds (negative), or return None.
-                let micros: u128 = e.duration().as_micros();
-                i64::try_from(micros).ok().and_then(i64::checked_neg)
+                // Safely convert to i64 microseconds (negative), or return None.  Subtract the
+                // unsigned magnitude from zero, so that i64::MIN (whose magnitude does not fit in
+                // an i64) is still representable.
+                let micros: u64 = u64::try_from(e.duration().as_micros()).ok()?;
+                0i64.checked_sub_unsigned(micros)
             }
         }
     }
